@@ -2388,8 +2388,8 @@ class StridedInterval:
         for part in self._ssplit():
             part._bits = new_length
             parts.append(part)
-        si = StridedInterval.least_upper_bound(*parts)
-        si._name = self._name
+        # (the extended value is not the variable it was made from: SignExt(8, x) and ZeroExt(8, x) differ)
+        si = StridedInterval.least_upper_bound(*parts).nameless_copy()
         si.uninitialized = self.uninitialized
 
         return si
@@ -2420,9 +2420,8 @@ class StridedInterval:
                 StridedInterval(bits=new_length, stride=n.stride, lower_bound=lb, upper_bound=ub)
             )
 
-        si = StridedInterval.least_upper_bound(*all_resulting_intervals).normalize()
-        if len(all_resulting_intervals) == 1:
-            si._name = self._name
+        # (the extended value is not the variable it was made from: SignExt(8, x) and ZeroExt(8, x) differ)
+        si = StridedInterval.least_upper_bound(*all_resulting_intervals).normalize().nameless_copy()
         si.uninitialized = self.uninitialized
         return si
 
